@@ -171,7 +171,10 @@ class Ctx:
             v = dict(v)
             v["replay"] = {"engine": engine, "cfg": cfg, "build_kwargs": build_kwargs,
                            "args": self._replay_args(r.args, v.get("case"))}
-            if v.get("property", self.prop) == self.prop:
+            if v.get("property") == "HARNESS":
+                # a self-check of the machinery failed: nothing this run says can be trusted
+                self.inconclusive.append("harness self-check failed: %s: %s" % (v.get("key"), str(v.get("what"))[:300]))
+            elif v.get("property", self.prop) == self.prop:
                 self.violations.append(v)
             else:
                 self.other_violations.append(v)
